@@ -129,6 +129,8 @@ def normalize_chunks_contract(interp, chunks, shape=None, limit=None, dtype=None
         shape = (shape,)
     shape = tuple(shape)
     if isinstance(chunks, str):
+        if len(shape) == 0:
+            return ()  # a 0-d array has no axes to chunk
         raise Unsupported("normalize_chunks('auto') depends on global configuration")
     if isinstance(chunks, (int, SInt)):
         chunks = (chunks,) * len(shape)
@@ -471,6 +473,9 @@ class _NXP:
         sym.cur().note_assumption(f"numpy kernel contract assumed: {fn} (shape and index map)")
 
     def asarray(self, x, dtype=None, **k):
+        if isinstance(x, (int, float, bool, SInt, sym.SReal)) and not isinstance(x, SymBlock):
+            # a Python scalar becomes a 0-d array
+            return SymBlock((), dtype or Dtype("scalar", 8), (lambda loc, x=x: ("<value>", (x,))), "scalar")
         return x
 
     def empty(self, shape, dtype=None, **k):
@@ -628,6 +633,51 @@ class _NXP:
             idx = tuple(j if i == ax else slice(None) for i in range(x.ndim))
             out.append(x._pyvc_getitem(self._interp(), idx))
         return tuple(out)
+
+    # generated values: origin(loc) = ("<value>", (term,)) — the element's value as a term of its local index
+    def arange(self, start, stop=None, step=1, dtype=None, **k):
+        """numpy.arange for integer arguments: n = max(0, ceil((stop - start) / step)) elements start + l*step"""
+        self._note("arange")
+        ctx = sym.cur()
+        if stop is None:
+            start, stop = 0, start
+        if isinstance(step, SInt) or step == 0:
+            raise Unsupported("nxp.arange contract: symbolic or zero step")
+        if isinstance(start, sym.SReal) or isinstance(stop, sym.SReal) or isinstance(start, float) or isinstance(stop, float):
+            raise Unsupported("nxp.arange contract: non-integer bounds")
+        n = ctx.fresh_int("arange_n", lo=0)
+        d, st = tz(stop) - tz(start), step
+        if st > 0:
+            ctx.assume_def(z3.If(d <= 0, n.t == 0, z3.And((n.t - 1) * st < d, d <= n.t * st)))
+        else:
+            ctx.assume_def(z3.If(d >= 0, n.t == 0, z3.And((n.t - 1) * st > d, d >= n.t * st)))
+        return SymBlock((n,), dtype, (lambda loc: ("<value>", (start + loc[0] * step,))), "arange")
+
+    def linspace(self, start, stop, num, endpoint=True, dtype=None, **k):
+        """numpy.linspace over the reals: num elements start + l*(stop - start)/div, div = num-1 if endpoint else num
+        (div == 0: the single element is start)"""
+        self._note("linspace (real arithmetic)")
+        interp = self._interp()
+        div = (num - 1) if endpoint else num
+
+        def origin(loc):
+            l = loc[0]
+            if interp.truth(div == 0):
+                return ("<value>", (start,))
+            return ("<value>", (start + l * ((stop - start) / div),))
+
+        return SymBlock((num,), dtype, origin, "linspace")
+
+    def eye(self, n_rows, n_cols=None, k=0, dtype=None, **kw):
+        self._note("eye")
+        if n_cols is None:
+            n_cols = n_rows
+        return SymBlock((n_rows, n_cols), dtype,
+                        (lambda loc: ("<value>", (wrap(z3.If(tz(loc[1]) - tz(loc[0]) == tz(k), z3.IntVal(1), z3.IntVal(0))),))), "eye")
+
+    def zeros_like(self, x, dtype=None, **k):
+        self._note("zeros_like")
+        return SymBlock(x.shape, dtype or x.dtype, (lambda loc: ("<value>", (0,))), "zeros")
 
     def __array_namespace_info__(self):
         class _Info:
